@@ -29,10 +29,10 @@ MANIFEST = dict(
 NPM_REQS = [b"^1.0.0", b"~1.1.0", b">=1.0.0 <2.0.0", b"*", b"1.x", b"1.0.0 - 1.2.0", b"^1.1.0 || ^2.0.0", b"2.0.0", b">=2.0.0", b"latest", b"<1.2.0", b"^0.9.0"]
 NPM_VERS = [b"0.9.0", b"1.0.0", b"1.1.0", b"1.2.0", b"2.0.0", b"2.1.0-beta.1"]
 MVN_REQS = [b"1.0.0", b"1.1.0", b"[1.0.0,2.0.0)", b"[1.1.0,)", b"(,1.2.0]", b"2.0.0", b"[2.0.0]", b"[1.0.0,1.1.0],[2.0.0,)", b"1.2.0"]
-MVN_VERS = [b"0.9.0", b"1.0.0", b"1.1.0", b"1.2.0", b"2.0.0", b"2.1.0-beta-1"]
+MVN_VERS = [b"0.9.0", b"1.0.0", b"1.0", b"1.1.0", b"1.2.0", b"2.0.0", b"2.1.0-beta-1"]
 PY_REQS = [b">=1.0", b"~=1.1", b"==1.*", b"<2", b">=1.0,<1.2", b"!=1.1.0", b"", b"==2.0.0", b">=2", b">1.0.0", b"<=1.1.0",
            b">=2.1.0b1", b"<2.1.0b1", b">=1.0,<2.1.0b1", b">=0.9.0", b"<=2.1.0b1", b">=1.2.0rc1"]
-PY_VERS = [b"0.9.0", b"1.0.0", b"1.1.0", b"1.2.0", b"2.0.0", b"2.1.0b1"]
+PY_VERS = [b"0.9.0", b"1.0.0", b"1.0", b"1.1.0", b"1.2.0", b"2.0.0", b"2.0", b"2.1.0b1"]   # incl. PEP 440-equal spellings
 PY_MARKERS = [b"python_version >= '3.0'", b"python_version < '3.0'", b"os_name == 'nt'", b"sys_platform == 'linux'", b"extra == 'x'", b"os_name != 'nt' and python_version >= '2.7'"]
 
 
@@ -161,6 +161,21 @@ def universe(rng, sysr):
     return [sysr, pk, roots, [rng.randrange(1 << 30) for _ in range(24)], 16]
 
 
+def cache_pressure_history():
+    """One long-lived PyPI resolver that has seen more distinct marker texts and requirement keys than any cache
+    it may keep can hold (12,000; the resolver's caches hold 10,000): 120 roots with 100 guarded requirements
+    each, all different, then one small root asked three times, then everything again on fresh resolvers."""
+    z = [b"z", [b"1.0", [], []]]
+    big = [b"big"]
+    for i in range(120):
+        deps = [[[[10, b'extra == "m%d_%d"' % (i, j)]], b"z", b">=0.%d.%d" % (i, j)] for j in range(100)]
+        big.append([b"%d.0" % (i + 1), [], deps])
+    lib_ = [b"lib", [b"1.0", [], []], [b"2.0", [], []]]
+    app = [b"app", [b"1.0", [], [[[[10, b'python_version >= "3"']], b"lib", b">=1.0"], [[[10, b'os_name == "nt"']], b"z", b""]]]]
+    roots = [[b"big", ve[0]] for ve in big[1:]] + [[b"app", b"1.0"]] * 3
+    return [2, [z, big, lib_, app], roots, [7, 3, 11, 5], 0]
+
+
 def classify(ctx, case, line, race=False):
     sysr = case[0]
     name = ["npm", "Maven", "PyPI"][sysr]
@@ -195,7 +210,7 @@ def classify(ctx, case, line, race=False):
 def run(ctx):
     rng = ctx.rng
     n = ctx.scale(240, 9000)
-    cases = [universe(rng, i % 3) for i in range(n)]
+    cases = [universe(rng, i % 3) for i in range(n)] + [cache_pressure_history()]
     outs = ctx.impl_surviving("purity", [sx(c) for c in cases])
     for c, o in zip(cases, outs):
         classify(ctx, c, o)
